@@ -20,6 +20,8 @@ pub fn check(family: &str, rec: &J) -> Verdict {
         "table" => table::check(rec),
         "lex" => lex::check_lex(rec),
         "syntax" => syntax::check(rec),
+        "fault" => syntax::check_fault(rec),
+        "poetic" => syntax::check_poetic(rec),
         "fold" => lint::check_fold(rec),
         "lint" => lint::check_lint(rec),
         "visit" => lint::check_visit(rec),
